@@ -39,7 +39,7 @@ fn random_instance(rng: &mut StdRng, name: &str) -> Value {
             ips.push(c);
         }
     }
-    let mut ports: Vec<u16> = vec![[80u16, 443, 8080, 65535][rng.gen_range(0..4)]];
+    let mut ports: Vec<u16> = vec![[80u16, 443, 8080, 65535, 0][rng.gen_range(0..5)]];
     if rng.gen_bool(0.4) {
         let p = [81u16, 8443, 1][rng.gen_range(0..3)];
         ports.push(p);
@@ -116,6 +116,81 @@ fn attempt(infos: &[Value], service: &str, ttl: u32, asynchronous: bool, remove:
     Ok(tl)
 }
 
+/// A peer running another implementation, played by the harness on a plain socket: it announces an instance of
+/// the service a real ServiceDiscovery watches, and later withdraws it (TTL 0, or the cache-flush bit this library
+/// treats as a goodbye).  Its RESPONSES also carry a question section (legal: RFC 6762 section 6 says the questions
+/// of a response are ignored, not the response) -- in the announcement of every other attempt and in every goodbye.
+fn foreign(asynchronous: bool, rt: &tokio::runtime::Runtime) -> Result<Value, String> {
+    use simple_dns::rdata::RData;
+    use simple_dns::{Name, Packet, Question, CLASS, QTYPE};
+    let tag = format!("{}{}", std::process::id(), if asynchronous { "a" } else { "s" });
+    let service = format!("_f{tag}._tcp.local");
+    let own = InstanceInformation::new(format!("own{tag}")).with_ip_address(std::net::Ipv4Addr::new(10, 8, 8, 8).into()).with_port(1);
+    let _enter = rt.enter();
+    let peer = guarded(|| -> Result<Peer, String> {
+        Ok(if asynchronous {
+            Peer::Async(simple_mdns::async_discovery::ServiceDiscovery::new_with_scope(own, &service, 60, None, NetworkScope::V4).map_err(|e| e.to_string())?)
+        } else {
+            Peer::Sync(simple_mdns::sync_discovery::ServiceDiscovery::new_with_scope(own, &service, 60, None, NetworkScope::V4).map_err(|e| e.to_string())?)
+        })
+    });
+    let peer = match peer {
+        Ok(Ok(p)) => p,
+        Ok(Err(why)) => return Err(why),
+        Err(at) => return Err(format!("panic at start: {at}")),
+    };
+    std::thread::sleep(Duration::from_millis(500));
+    let tx = std::net::UdpSocket::bind("0.0.0.0:0").map_err(|e| e.to_string())?;
+    let listed = |ghost: &str| -> Result<bool, String> {
+        known(&peer, rt).map(|v| v.iter().any(|i| i["name"] == json!(ghost.chars().map(|c| c as u32).collect::<Vec<u32>>())))
+    };
+    let mut atts: Vec<Value> = vec![];
+    for (k, (ann_q, bye)) in [(false, "ttl0"), (true, "flush"), (false, "flush"), (true, "ttl0")].iter().enumerate() {
+        let ghost = format!("ghost{k}");
+        let info = InstanceInformation::new(ghost.clone()).with_ip_address(std::net::Ipv4Addr::new(10, 9, 9, k as u8 + 1).into()).with_port(7000 + k as u16);
+        let full = Name::new_unchecked(Box::leak(format!("{ghost}.{service}").into_boxed_str()));
+        let svc = Name::new_unchecked(Box::leak(service.clone().into_boxed_str()));
+        let datagram = |ttl: u32, flush: bool, with_question: bool| -> Result<Vec<u8>, String> {
+            let mut p = Packet::new_reply(0);
+            if with_question {
+                p.questions.push(Question::new(svc.clone(), QTYPE::ANY, CLASS::IN.into(), false));
+            }
+            for r in info.clone().into_records(&full, ttl).map_err(|e| e.to_string())? {
+                let r = if flush { r.to_cache_flush_record() } else { r };
+                if matches!(r.rdata, RData::A(_) | RData::AAAA(_)) {
+                    p.additional_records.push(r);
+                } else {
+                    p.answers.push(r);
+                }
+            }
+            p.build_bytes_vec_compressed().map_err(|e| e.to_string())
+        };
+        let ann = datagram(4500, false, *ann_q)?;
+        let gone_gram = if *bye == "ttl0" { datagram(0, false, true)? } else { datagram(120, true, true)? };
+        let _ = tx.send_to(&ann, "224.0.0.251:5353");
+        std::thread::sleep(Duration::from_millis(700));
+        let seen = match listed(&ghost) {
+            Ok(b) => b,
+            Err(at) => {
+                atts.push(json!({"ann_q": ann_q, "bye": bye, "seen": false, "gone": false, "panic": at}));
+                break;
+            }
+        };
+        let _ = tx.send_to(&gone_gram, "224.0.0.251:5353");
+        std::thread::sleep(Duration::from_millis(2300));
+        let gone = match listed(&ghost) {
+            Ok(b) => !b,
+            Err(at) => {
+                atts.push(json!({"ann_q": ann_q, "bye": bye, "seen": seen, "gone": false, "panic": at}));
+                break;
+            }
+        };
+        atts.push(json!({"ann_q": ann_q, "bye": bye, "seen": seen, "gone": gone, "panic": ""}));
+    }
+    std::mem::forget(peer);
+    Ok(json!(atts))
+}
+
 pub fn run(a: &Args) {
     let mut out = Out::new(&a.out, a.shards);
     let mut st = Stats::default();
@@ -160,6 +235,28 @@ pub fn run(a: &Args) {
         st.bump(if tls.is_empty() { "e2e-inconclusive" } else { "e2e-scenarios" });
         out.emit(json!({"ev": "E2E", "cls": format!("e2e {} peers={}", if asynchronous { "async" } else { "sync" }, npeers),
             "flavour": if asynchronous { "async" } else { "sync" }, "peers": infos, "ttl": ttl, "remove": remove, "attempts": tls, "panics": panics, "note": note}));
+    }
+    // the foreign peer (sync and tokio listeners, one after the other: 4 x 3 s each)
+    let fhandles: Vec<_> = [false, true]
+        .into_iter()
+        .map(|asynchronous| {
+            let rt = rt.clone();
+            (asynchronous, std::thread::spawn(move || {
+                crate::util::install_panic_hook();
+                foreign(asynchronous, &rt)
+            }))
+        })
+        .collect();
+    for (asynchronous, h) in fhandles {
+        let (atts, note) = match h.join() {
+            Ok(Ok(v)) => (v, String::new()),
+            Ok(Err(why)) => (json!([]), why),
+            Err(_) => (json!([]), "foreign-peer thread panicked".to_string()),
+        };
+        st.case(("foreign", asynchronous), atts.as_array().map(|v| !v.is_empty()).unwrap_or(false));
+        st.bump("e2e-foreign");
+        out.emit(json!({"ev": "E2EForeign", "cls": format!("e2e foreign peer {}", if asynchronous { "async" } else { "sync" }),
+            "flavour": if asynchronous { "async" } else { "sync" }, "attempts": atts, "note": note}));
     }
     out.finish(st.into_json("e2e",
         "real ServiceDiscovery peers (sync and tokio flavours) on the loopback multicast group: 2-3 peers advertising random instances (1-3 IPv4/IPv6 addresses, 1-2 ports, attributes with absent/empty/non-empty values) of a unique service find each other, one of them leaves with remove_service_from_discovery; get_known_services() of every peer is sampled every 250-500 ms; sampled, not exhaustive; non-trivial = the sockets could be set up",
